@@ -28,7 +28,7 @@ ASSUMPTIONS = [
     "deleteSegment/getFrames are called with start<=end",
 ]
 REQUIRED_CLASSES = ["history:offgrid_edit_wide", "history:insert", "history:delete", "history:replace", "history:reopen",
-                    "history:query_offgrid", "history:query_ongrid"]
+                    "history:query_offgrid", "history:query_ongrid", "history:get_replace_get"]
 
 FMT = {1: "b", 2: "h", 4: "i"}
 
@@ -182,6 +182,18 @@ def run_history(case):
                 cl.add("get")
                 if wide_off:
                     cl.add("offgrid_edit_wide")
+        elif kind == "get_replace_get":
+            # read, replace a stretch by an equally long one, read again: the second read sees the new samples
+            n = len(model)
+            i, j = sorted([op["t0"][0] % (n + 1), op["t1"][0] % (n + 1)])
+            list(wav.getSamples(0, n / rate))
+            new = [op["fill"]] * (j - i)
+            wav.replaceSegment(i / rate, j / rate, to_bytes(new, width))
+            model[i:j] = new
+            got = list(wav.getSamples(0, n / rate))
+            if got != model:
+                raise Violation("samples-differ", f"{what}: getSamples after an equally long replaceSegment returns the old samples")
+            cl.add("get_replace_get")
         elif kind == "reopen":
             fn = os.path.join(tmpdir(), "c16.wav")
             wav.save(fn)
@@ -244,12 +256,15 @@ def histories(draw):
     samples = draw(st.lists(sv, min_size=n, max_size=n))
     ops = []
     for _ in range(draw(st.integers(1, 6))):
-        kind = draw(st.sampled_from(["insert", "delete", "replace", "concatenate", "subwav", "get", "get", "reopen"]))
+        kind = draw(st.sampled_from(["insert", "delete", "replace", "concatenate", "subwav", "get", "get", "reopen", "get_replace_get"]))
         op = {"op": kind}
         if kind in ("insert", "concatenate", "replace"):
             op["samples"] = draw(st.lists(sv, min_size=0, max_size=12))
         if kind == "insert":
             op["t"] = draw(time_spec())
+        if kind == "get_replace_get":
+            op["t0"], op["t1"] = [draw(st.integers(0, 400)), 0.0], [draw(st.integers(0, 400)), 0.0]
+            op["fill"] = draw(sv)
         if kind in ("delete", "replace", "subwav", "get"):
             op["t0"], op["t1"] = draw(time_spec()), draw(time_spec())
         if kind == "subwav":
